@@ -466,7 +466,16 @@ impl TTS {
         fn compute_bookmark_element<'c, 's:'c, 'm, 'r>(value: &TTSCommandValue, tag_and_attr: &str, rules_with_context: &'r mut SpeechRulesWithContext<'c, 's, 'm>, mathml: Element<'c>) -> Result<String> {
             match value {
                 TTSCommandValue::XPath(xpath) => {
-                    let id = xpath.replace::<String>(rules_with_context, mathml)?;
+                    // the id has to be used as is -- if it is treated like text, an id like "a" is replaced by the speech for the letter 'a'
+                    let id = match xpath.evaluate(rules_with_context.get_context(), mathml)? {
+                        Value::Nodeset(nodes) => match nodes.document_order_first() {
+                            Some(node) => node.string_value(),
+                            None => bail!("During replacement, no matching element found"),
+                        },
+                        Value::String(s) => s,
+                        Value::Number(num) => num.to_string(),
+                        Value::Boolean(b) => b.to_string(),
+                    };
                     return Ok( format!("<{}='{}'/>", tag_and_attr, id) );
                 },
                 _ => bail!("Implementation error: found bookmark value that did not evaluate to a string"),
